@@ -9,7 +9,8 @@ from vf.models import insn_roundtrip as rt
 
 CHECK = dict(
     id="C15", level="exploration",
-    rule=("16-byte candidates from the shared instruction corpus (random bytes, stratified opcode "
+    rule=("16-byte candidates from the shared instruction corpus: a seed-independent walk over every class of "
+          "each decoder table (fixed prefix classes x ModRM forms on x86) plus seed-dependent random bytes, stratified opcode "
           "enumeration, decoder-table templates with random free fields, curated vectors of test/arch "
           "with bit flips) decoded by mn.dis in every arch/mode; each decoded instruction is given to "
           "mn.asm and every proposed encoding is decoded again; distinct = distinct (arch/mode, "
@@ -21,11 +22,12 @@ CHECK = dict(
     exhaustive={"quick": False, "thorough": False},
     technique="runtime monitoring: decode -> assemble -> decode round trip on decoder-accepted byte strings",
 )
-PER_ARCH = {"quick": 2000, "thorough": 100000}
+PER_ARCH = {"quick": 800, "thorough": 2500}      # seed-dependent candidates per arch/mode
+WALK = {"quick": (1, 1), "thorough": (2, 1)}      # table walk: (rounds, stride)
 
 
 def shards(tier, seed, scale):
-    return rt.shards(tier, seed, scale, PER_ARCH)
+    return rt.shards(tier, seed, scale, PER_ARCH, WALK)
 
 
 def run_shard(params, rec):
